@@ -290,6 +290,11 @@ def debugger_suite(ctx, n_random, hist_len, exhaustive_len, big=False):
         o = impl(ctx, ['GEN ' + files_req(b'm', {b'm': src.encode()})])[0]
         if not is_crash(o) and fields(o).get('ok') == '1':
             cases.append({'defs': [], 'main': [], 'files': {b'm': src.encode()}, 'mainf': b'm', 'text': src, 'prog': Prog(fields(o)), 'twocallees': True})
+    # scripts that name no variable at all (a library file used as main file): the root frame has no register
+    for src in ("STOP\n", "PROGRAM f IN a DO\n  x0 := a\nEND\nSTOP\n", "GOTO e;\ne: STOP\n"):
+        o = impl(ctx, ['GEN ' + files_req(b'm', {b'm': src.encode()})])[0]
+        if not is_crash(o) and fields(o).get('ok') == '1':
+            cases.append({'defs': [], 'main': [], 'files': {b'm': src.encode()}, 'mainf': b'm', 'text': src, 'prog': Prog(fields(o))})
     # non-canonical layouts: several statements per line, headers sharing a line with other code, pieces in included files
     from checks import front as _front
     for (m, f, meta) in _front.program_files(ctx, n_random // 3, mutate_frac=0.0, multi_frac=0.6, big=big):
